@@ -144,6 +144,74 @@ func (e *Engine) cryptoIntrinsic(fn *ssa.Function, full string, args []Value) (V
 			return mkInt(1), true
 		}
 		return mkInt(0), true
+	case "strconv.ParseInt", "strconv.ParseUint", "strconv.Atoi":
+		// the library's own code works on the full uint64 range, which the
+		// engine's integers do not cover: concrete strings go to the real
+		// library, short symbolic decimal strings are parsed digit by digit
+		sv := args[0].(StrVal)
+		base, bits64 := int64(10), int64(0)
+		if fn.Name() != "Atoi" {
+			bt, zt := args[1].(*Term), args[2].(*Term)
+			if !bt.konst || !zt.konst {
+				unsupported("%s with symbolic base or bit size", full)
+			}
+			base, bits64 = bt.iv, zt.iv
+		}
+		mkErr := func(msg string) Value {
+			return TupleVal{mkInt(0), e.newError(mkStr(full + ": " + msg))}
+		}
+		if cs, ok := concreteStr(sv); ok {
+			switch fn.Name() {
+			case "Atoi":
+				n, err := strconv.Atoi(cs)
+				if err != nil {
+					return mkErr(err.Error()), true
+				}
+				return TupleVal{mkInt(int64(n)), IfaceVal{}}, true
+			case "ParseInt":
+				n, err := strconv.ParseInt(cs, int(base), int(bits64))
+				if err != nil {
+					return TupleVal{mkInt(n), e.newError(mkStr(err.Error()))}, true
+				}
+				return TupleVal{mkInt(n), IfaceVal{}}, true
+			default:
+				n, err := strconv.ParseUint(cs, int(base), int(bits64))
+				if err != nil {
+					return mkErr(err.Error()), true
+				}
+				if n >= 1<<62 {
+					unsupported("strconv.ParseUint result outside the integer range of the engine")
+				}
+				return TupleVal{mkInt(int64(n)), IfaceVal{}}, true
+			}
+		}
+		noAtom(sv)
+		if base != 10 || len(sv.bytes) > 9 || (bits64 != 0 && bits64 != 64) {
+			unsupported("%s of a symbolic string (base %d, %d bytes)", full, base, len(sv.bytes))
+		}
+		bs := sv.bytes
+		neg := false
+		if len(bs) > 0 && fn.Name() != "ParseUint" {
+			if e.decide(tEq(bs[0], mkInt('-'))) {
+				neg, bs = true, bs[1:]
+			} else if e.decide(tEq(bs[0], mkInt('+'))) {
+				bs = bs[1:]
+			}
+		}
+		if len(bs) == 0 {
+			return mkErr("invalid syntax"), true
+		}
+		val := mkInt(0)
+		for _, b := range bs {
+			if !e.decide(tAnd(tCmp(">=", b, mkInt('0')), tCmp("<=", b, mkInt('9')))) {
+				return mkErr("invalid syntax"), true
+			}
+			val = tArith("+", tArith("*", val, mkInt(10)), tArith("-", b, mkInt('0')))
+		}
+		if neg {
+			val = tArith("-", mkInt(0), val)
+		}
+		return TupleVal{val, IfaceVal{}}, true
 	case "strconv.FormatFloat", "strconv.AppendFloat":
 		// concrete floats: the real library decides the digits
 		off := 0
